@@ -431,6 +431,93 @@ func r20_4(c *Ctx, rule string) {
 		hit, und := c.SuccessAvoiding(rm, rcall, as, nil, nil)
 		c.R.Check(!und && hit != nil, rule, c.name(rm)+"/zero-length-ok", c.P.Pos(rm.Pos()), "an empty frame yields an (empty) message without error", "an empty frame does not return success")
 	}
+	// the body is read into a buffer of exactly the frame's length: a longer
+	// one makes ReadFull eat the following frames (or wait for them forever)
+	if rcall != nil {
+		fromLen := func(v ssa.Value) bool {
+			return v != nil && c.DerivesFrom(v, func(y ssa.Value) bool { return y == rcall.Value() }, 4)
+		}
+		var sizedD func(v ssa.Value, d int) bool
+		sizedD = func(v ssa.Value, d int) bool {
+			if d > 6 {
+				return false
+			}
+			switch y := v.(type) {
+			case *ssa.MakeSlice:
+				return fromLen(y.Len)
+			case *ssa.Slice:
+				return eng.SliceLow(y) == nil && fromLen(y.High)
+			case *ssa.Phi:
+				for _, e := range y.Edges {
+					if !sizedD(e, d+1) {
+						return false
+					}
+				}
+				return len(y.Edges) > 0
+			case *ssa.Call:
+				// a helper no rule names that hands the buffer out
+				rs := eng.ResolveAll(y)
+				if len(rs) == 0 || (len(rs) == 1 && rs[0] == v) {
+					return false
+				}
+				for _, r := range rs {
+					if !sizedD(r, d+1) {
+						return false
+					}
+				}
+				return true
+			}
+			return false
+		}
+		sized := func(v ssa.Value) bool { return sizedD(v, 0) }
+		for _, call := range rf {
+			buf := call.Common().Args[1]
+			if prefixLen(buf) == 4 {
+				continue // the header read
+			}
+			con := c.siteName(call) + "/body-buffer-sized"
+			if _, isP := buf.(*ssa.Parameter); isP {
+				// read by a helper: the buffer its caller hands in
+				if rs := eng.ResolveAll(buf); len(rs) == 1 {
+					buf = rs[0]
+				}
+			}
+			if sized(eng.Strip(buf)) {
+				c.R.OK(rule, con, c.pos(call), "the body buffer is cut to the frame length")
+				continue
+			}
+			ld, isLoad := buf.(*ssa.UnOp)
+			al, isAl := ssa.Value(nil), false
+			if isLoad && ld.Op == token.MUL {
+				al, isAl = ld.X, true
+			}
+			if _, ok := al.(*ssa.Alloc); !isAl || !ok {
+				c.R.Undecided(rule, con, c.pos(call), "the body buffer is neither cut to the frame length in place nor a variable this rule can follow")
+				continue
+			}
+			const ok = "u:body-buffer-sized"
+			ex := c.explorer(rm)
+			bad := 0
+			ex.Barrier = func(in ssa.Instruction, st *eng.State) bool {
+				if s2, isS := in.(*ssa.Store); isS && s2.Addr == al {
+					st.Facts[ok] = sized(s2.Val)
+				}
+				return false
+			}
+			ex.Target = func(in ssa.Instruction, st *eng.State) bool {
+				if in != ssa.Instruction(call) {
+					return false
+				}
+				if !st.Facts[ok] {
+					bad++
+				}
+				return true
+			}
+			ex.StopAtTarget = true
+			ex.Run()
+			c.R.Check(bad == 0 && !ex.Exhausted, rule, con, c.pos(call), "on every path the buffer handed to the body read was last set to a slice of the frame's length", "the body of a frame can be read into a buffer that was not cut to the frame's length (the whole pooled buffer): ReadFull consumes the following frames or blocks")
+		}
+	}
 	// pool put only by defer, after Unmarshal by construction
 	nput := 0
 	for _, call := range c.P.CallsTo(rm, "(*sync.Pool).Put") {
